@@ -52,6 +52,15 @@ def run(ctx):
     c10.r7_row_memo(ctx, rule="C06.R9")
     # the action handed to learn / recorded is the one the learner named, in every batch layout
     c15.r11_arm_agreement(ctx, ctx.fn(c15.SAF, "SafeLearner._parse_pred"), rule="C06.R11")
+    # "the learner's own probability": the sampled action travels with the weight at the same index
+    from . import c05
+    ctx.rule("C06.R12", "the probability handed to learn and recorded is the PMF entry at the index of the sampled action (CobaRandom.choicew pairs seq[i] with weights[i]; "
+                        "a weight looked up by equality is wrong when two offered actions compare equal)")
+    c05.choicew_pairs(ctx, "C06.R12")
+    # "the environment's reward for that action": Finalize/Repr re-key the reward function when they re-encode the actions
+    ctx.rule("C06.R13", "rewards taken over by position when the actions are re-encoded come from a reward object that lists exactly the old actions (guarded by equality of the lists)")
+    n13 = c10.positional_shortcuts(ctx, c10.find_writers(ctx), rule="C06.R13")
+    ctx.floor("C06.R13", "positional reward shortcuts", n13, 1)
 
 
 # ================================================================================================
@@ -630,6 +639,8 @@ def r6_wiring(ctx):
 
 
 CONTROLS = [
+    ("choicew looks the weight up by equality", "coba/random.py", M.replace_expr("CobaRandom.choicew", "(seq[i], weights[i])", "(seq[i], weights[seq.index(seq[i])])"), "C06.R12"),
+    ("positional rewards shortcut guarded by length only", "coba/environments/filters.py", M.replace_expr("Repr.filter", "old[target].actions == old['actions']", "len(old[target].actions) == len(old['actions'])"), "C06.R13"),
     ("recorded action loses the batch marker", SEQ, M.replace_expr("SequentialCB._results", "on_act if not batched else Batch.List(on_act)", "on_act"), "C06.R10"),
     ("identity test dropped before the PMF look-alike", "coba/safety.py", M.delete_stmt("SafeLearner.pred_format", M.text_has("if any((std_pred[0] is action for action in actions)): return 'AX'")), "C06.R8"),
     ("Repr memo keyed by the first action only", "coba/environments/filters.py", M.replace_expr("Repr.filter", "row != prev_row", "prev_row is None or row[0] != prev_row[0]"), "C06.R9"),
